@@ -4,12 +4,14 @@
 import json, os, re, shutil, subprocess, sys
 sid = sys.argv[1]
 extra = sys.argv[2:]
-src = "/tmp/seed/%s" % sid
-dst = "/verif/seeded/%s" % sid
+root = os.environ.get("SEEDROOT", "/tmp/seed")
+suffix = os.environ.get("SEEDSUFFIX", "")
+src = "%s/%s" % (root, sid)
+dst = "/verif/seeded/%s%s" % (sid, suffix)
 os.makedirs(dst, exist_ok=True)
 for f in ("patch.diff", "demo.py", "notes.md"):
     shutil.copy(os.path.join(src, f), os.path.join(dst, f))
-ver = [l for l in open("/tmp/seed/verify_summary.txt") if l.startswith(sid + " ")]
+ver = [l for l in open(root + "/verify_summary.txt") if l.startswith(sid + " ")]
 notes = open(os.path.join(src, "notes.md")).read()
 subprocess.check_call(["git", "-C", "/repo", "apply", os.path.join(dst, "patch.diff")])
 results = {}
@@ -39,7 +41,7 @@ meta = {
         "how": "in the scratch worktree with the change applied: demo.py exits 1; against the unchanged /repo/src: exits 0; whole test suite on the changed tree (BASELINE command, guard off)",
         "observed": ver[0].strip() if ver else "not recorded",
     },
-    "checks_run": {"command": "git -C /repo apply seeded/%s/patch.diff && ./check <ID> (quick) && git -C /repo checkout -- ." % sid, "results": results},
+    "checks_run": {"command": "git -C /repo apply seeded/%s%s/patch.diff && ./check <ID> (quick) && git -C /repo checkout -- ." % (sid, suffix), "results": results},
     "caught_by": [c for c, r in results.items() if r["exit"] == 1],
 }
 json.dump(meta, open(os.path.join(dst, "meta.json"), "w"), indent=1)
